@@ -51,6 +51,7 @@ type runner struct {
 	conc    int // free-running pass: number of goroutines re-issuing a seeded sample of the state's requests concurrently
 	concN   int // ... and the size of that sample
 	concReq int
+	wwalks  int
 	snap    *chainh.Snapshot
 }
 
@@ -225,11 +226,110 @@ func (r *runner) ask(ctx sdk.Context, path []chainh.Action, n *Node) error {
 	return nil
 }
 
+// wwalk executes one walk while the chain moves: pages by next_key (verbatim), the scheduled transactions committed
+// between them. Every page is recorded with the index of the state it was answered in.
+func (r *runner) wwalk(snap *chainh.Snapshot, path []chainh.Action, ww WWalk) error {
+	type stateRec struct {
+		S interface{} `json:"S"`
+		D M           `json:"D"`
+	}
+	type seg struct {
+		Si int  `json:"si"`
+		Pg Pg   `json:"pg"`
+		R  Resp `json:"r"`
+	}
+	var states []stateRec
+	var segs []seg
+	acts := []M{}
+	cur := snap
+	var ctx sdk.Context
+	var sc *scan
+	load := func() error {
+		ctx = r.q.W.Ctx(cur)
+		var err error
+		if sc, err = r.q.Scan(ctx); err != nil {
+			return err
+		}
+		st, err := r.q.W.Project(ctx)
+		if err != nil {
+			return err
+		}
+		states = append(states, stateRec{st, sc.D()})
+		return nil
+	}
+	if err := load(); err != nil {
+		return err
+	}
+	pg := Pg{Mode: "offset", Limit: ww.Q.Limit, Ct: ww.Q.Ct}
+	var raw []byte
+	truncated := false
+	for {
+		resp, err := r.q.List(ctx, sc, ww.Q.Kind, ww.Q.F, pg, raw)
+		if err != nil {
+			return err
+		}
+		segs = append(segs, seg{len(states), pg, resp})
+		if resp.Err != "" || len(resp.nextRaw) == 0 {
+			break
+		}
+		if len(segs) >= maxWalkPages {
+			truncated = true
+			break
+		}
+		wrote := false
+		for _, a := range ww.Acts {
+			if a.After != len(segs) {
+				continue
+			}
+			var act chainh.Action
+			if err := json.Unmarshal(a.A, &act); err != nil {
+				return fmt.Errorf("bad wwalk action: %v", err)
+			}
+			chainh.NormalizeAction(&act)
+			if act.Act == "NextBlock" {
+				cur = cur.Advance(act.Gap)
+			} else {
+				c2 := r.q.W.Ctx(cur)
+				res, err := r.q.W.RunTx(c2, act)
+				if err != nil {
+					return err
+				}
+				if !res.OK {
+					return fmt.Errorf("HARNESS: scheduled write %s rejected by the implementation: %s", act.Key(), res.Err)
+				}
+				cur = r.q.W.Dump(c2)
+			}
+			acts = append(acts, M{"after": a.After, "a": act})
+			wrote = true
+		}
+		if wrote {
+			if err := load(); err != nil {
+				return err
+			}
+		}
+		pg = Pg{Mode: "key", Key: resp.Next, Limit: ww.Q.Limit, Ct: ww.Q.Ct}
+		raw = resp.nextRaw
+	}
+	if path == nil {
+		path = []chainh.Action{}
+	}
+	q := M{"op": "wwalk", "kind": ww.Q.Kind, "f": ww.Q.F, "limit": ww.Q.Limit, "ct": ww.Q.Ct}
+	r.nextID++
+	r.wwalks++
+	r.reqs += len(segs)
+	return r.out.Write(M{"id": r.nextID, "path": path, "ww": true, "q": q, "states": states, "segs": segs, "acts": acts, "truncated": truncated, "qs": []QR{}})
+}
+
 func (r *runner) dfs(n *tnode, snap *chainh.Snapshot, path []chainh.Action) error {
 	if n.node != nil {
 		r.snap = snap
 		if err := r.ask(r.q.W.Ctx(snap), path, n.node); err != nil {
 			return fmt.Errorf("at path %s: %v", pathStr(path), err)
+		}
+		for _, ww := range n.node.WWalks {
+			if err := r.wwalk(snap, path, ww); err != nil {
+				return fmt.Errorf("wwalk at path %s: %v", pathStr(path), err)
+			}
 		}
 	}
 	for _, k := range n.order {
@@ -356,7 +456,7 @@ func Main(args []string) int {
 		kinds = append(kinds, k)
 	}
 	sort.Strings(kinds)
-	sum, _ := json.Marshal(M{"nodes": nnodes, "states_asked": r.states, "requests": r.reqs, "concurrent_requests": r.concReq, "kinds_skipped_unchanged": r.skipped,
+	sum, _ := json.Marshal(M{"nodes": nnodes, "states_asked": r.states, "requests": r.reqs, "concurrent_requests": r.concReq, "walks_under_writes": r.wwalks, "kinds_skipped_unchanged": r.skipped,
 		"per_kind": r.perKind, "errors": r.errs, "lines": r.nextID, "wall_s": time.Since(t0).Seconds()})
 	fmt.Println(string(sum))
 	return 0
